@@ -215,6 +215,16 @@ def hist_cases(ctx):
     for i in range(n):
         length = rng.choice([3, 5, 8, 12, 20, 40]) if i % 10 else rng.choice([80, 150])
         out.append(render(gen_history(rng, length)))
+    # size classes of the allocator: definite containers and payloads whose storage is 4 KiB .. 1 MiB (thresholds at
+    # which a library might switch allocation strategy), built, used, copied and released
+    for cap in (511, 512, 4096, 16383, 16384, 16385, 65536, 131072):
+        out.append(_close(["nda %d" % cap, "bi 0 8 1", "push 0 1", "push 0 1", "get 0 1", "ssize 0", "copy 0", "dec 0"]))
+        out.append(_close(["ndm %d" % (cap // 2), "bi 0 8 1", "bc 21", "madd 0 1 2", "ssize 0", "copy 0"]))
+        out.append(_close(["load %s" % _hx([0x9A] + list(cap.to_bytes(4, "big")) + [0x01, 0x02]),
+                           "load %s" % _hx([0xBA] + list((cap // 2).to_bytes(4, "big")) + [0x01])]))
+    for n_ in (4095, 4096, 65535, 65536, 131072):
+        out.append(_close(["load %s" % _hx([0x5A] + list(n_.to_bytes(4, "big")) + [0x41] * n_), "copy 0", "ssize 1",
+                           "load %s" % _hx([0x7A] + list(n_.to_bytes(4, "big")) + [0x61] * (n_ - 1))]))
     return out
 
 def fault_cases(ctx):
